@@ -209,6 +209,8 @@ package allocator
 
 //@ func (da *DistributedAllocator) saveAllocation
 //@   requires alloc != nil && da.store != nil
+// the durable record changes only inside the critical section that changes the allocator in memory
+//@   requires holds(da.mu)
 //@   modifies storePuts, lastPutDoc
 //@   ensures err == nil ==> storePuts == old(storePuts) + 1 && json_str(lastPutDoc, "subscriber_id") == alloc.SubscriberID && json_str(lastPutDoc, "prefix") == alloc.Prefix
 //@   ensures err == nil ==> json_str(lastPutDoc, "pool_id") == alloc.PoolID && json_int(lastPutDoc, "epoch") == alloc.Epoch
@@ -216,6 +218,7 @@ package allocator
 
 //@ func (da *DistributedAllocator) deleteAllocation
 //@   requires da.store != nil
+//@   requires holds(da.mu)
 //@   modifies storeDeletes
 //@   ensures err == nil ==> storeDeletes == old(storeDeletes) + 1
 //@   ensures err != nil ==> storeDeletes == old(storeDeletes)
@@ -223,6 +226,20 @@ package allocator
 // session mode (IPAllocator behind the DistributedAllocator's mutex)
 //@ pure func sessionMode(da *DistributedAllocator) bool =
 //@     da.mode != PoolModeLease && da.allocator != nil && da.store != nil && da.allocator.nonnil && da.allocator.distinct && da.allocator.total && da.allocator.fwd && da.allocator.rev && da.allocator.bits && da.allocator.cnt
+
+//@ func (da *DistributedAllocator) getAllocation
+//@   requires da.store != nil
+//@   modifies nothing
+//@   ensures err == nil ==> result != nil
+
+// Renew (lease mode): the durable record is refreshed inside the critical section that renewed the
+// lease in memory -- saveAllocation / deleteAllocation require the caller to hold da.mu (a Release of the same subscriber
+// running in between would be undone by the late write: memory and store would disagree and the freed
+// address be recorded twice). At most one record is written.
+//@ func (da *DistributedAllocator) Renew
+//@   requires da.mode == PoolModeLease ==> da.epochAllocator != nil && da.store != nil
+//@   ensures storePuts <= old(storePuts) + 1 && storeDeletes == old(storeDeletes)
+//@   ensures da.mode != PoolModeLease ==> storePuts == old(storePuts)
 
 //@ func (da *DistributedAllocator) hasLocalAllocation
 //@   mode seq
